@@ -104,10 +104,12 @@ def compositions(w):
         yield tuple(parts)
 
 
-def run_fragments(IterativeParser, rules, start, parts, counter):
-    """Feed the fragments; returns (frozenset of complete tree snapshots, tuple of can_continue answers)"""
-    p = IterativeParser(rules)
-    p.new_parse(start, ParsingMode.COMPLETE)
+def run_fragments(IterativeParser, rules, start, parts, counter, mode=None, parser=None):
+    """Feed the fragments; returns (frozenset of complete tree snapshots, tuple of can_continue answers).
+    parser: a long-lived parser object that has served other parses before (what Parser / the packet parser do: one
+    IterativeParser, new_parse() per request); default: a brand-new one."""
+    p = parser if parser is not None else IterativeParser(rules)
+    p.new_parse(start, ParsingMode.COMPLETE if mode is None else mode)
     cont = []
     complete = set()
     for k, frag in enumerate(parts):
@@ -137,6 +139,7 @@ def work(item):
         return res
     rules = spec.grammar.rules
     counter = AdmissionCounter(200_000)
+    shared, shared_inc = IterativeParser(rules), IterativeParser(rules)
     with counter:
         for w in words(alphabet, maxlen, binary=g.binary):
             if len(w) == 0:
@@ -165,12 +168,41 @@ def work(item):
                 else:
                     res["viol"].append(dict(base, kind="oneshot_vs_reference", ref_member=is_member, trees=len(one), sig="oneshot_vs_reference"))
             viable_cache: dict = {}
+            # prefix mode (ParsingMode.INCOMPLETE, what protocol mode uses while a message is still arriving): the COMPLETE trees
+            # reported after the last fragment must be those of the one-shot request in the same mode
+            try:
+                with time_limit(30):
+                    counter.reset()
+                    one_inc, _ = run_fragments(IterativeParser, rules, "<start>", (w,), counter, mode=ParsingMode.INCOMPLETE)
+            except Exception:
+                one_inc = None
+            if one_inc is not None:
+                for parts in compositions(w):
+                    if len(parts) == 1:
+                        continue
+                    res["schedules"] += 1
+                    try:
+                        with time_limit(30):
+                            counter.reset()
+                            got_inc, _ = run_fragments(IterativeParser, rules, "<start>", parts, counter, mode=ParsingMode.INCOMPLETE, parser=shared_inc)
+                    except (Budget, Timeout):
+                        res["skipped"] += 1
+                        continue
+                    except Exception as e:
+                        res["viol"].append(dict(base, kind="fragmented_raises", mode="prefix", fragments=repr(parts), error=f"{type(e).__name__}: {e}"[:200],
+                                                sig=f"fragmented_raises:prefix:{type(e).__name__}"))
+                        continue
+                    if got_inc != one_inc:
+                        res["viol"].append(dict(base, kind="fragmentation_changes_result_in_prefix_mode", fragments=repr(parts), oneshot_complete_trees=len(one_inc),
+                                                fragmented_complete_trees=len(got_inc),
+                                                sig="fragmentation_changes_result:prefix:" + ("lost" if not got_inc >= one_inc else "gained")))
             for parts in compositions(w):
                 res["schedules"] += 1
                 try:
                     with time_limit(30):
                         counter.reset()
-                        got, cont = run_fragments(IterativeParser, rules, "<start>", parts, counter)
+                        # one long-lived parser object serves every schedule of every word of this grammar (new_parse() per request)
+                        got, cont = run_fragments(IterativeParser, rules, "<start>", parts, counter, parser=shared)
                 except (Budget, Timeout):
                     res["skipped"] += 1
                     continue
